@@ -267,15 +267,25 @@ func (d *GroupDom) Call(in *Interp, site ssa.Instruction, fn *ssa.Function, args
 	}
 	name := load.ShortName(fn)
 	put := func(v *GV) []Val { in.Store(site, args[0], v); return []Val{args[0]} }
-	switch name {
-	case "checkInitialized":
-		for _, e := range in.SliceElems(site, args[0]) {
-			g, ok := in.Load(site, e).(*GV)
-			if ok && g.Invalid {
-				in.Undecided(site, "checkInitialized would panic: uninitialised point")
+	if in.P.Guards().IsExactGuard(fn) {
+		// the initialisation guard in whatever shape it is written (load/guardsem.go)
+		for i, a := range args {
+			var elems []Val
+			if load.IsPointSlice(fn.Params[i].Type()) {
+				elems = in.SliceElems(site, a)
+			} else {
+				elems = []Val{a}
+			}
+			for _, e := range elems {
+				g, ok := in.Load(site, e).(*GV)
+				if ok && g.Invalid {
+					in.Undecided(site, "%s would panic: uninitialised point", name)
+				}
 			}
 		}
 		return nil, true
+	}
+	switch name {
 	case "(*projP2).Zero", "(*projCached).Zero", "(*affineCached).Zero":
 		return put(d.Zero()), true
 	case "(*projP2).FromP1xP1", "(*projP2).FromP3", "(*Point).fromP1xP1", "(*Point).fromP2", "(*projCached).FromP3", "(*affineCached).FromP3", "(*Point).Set":
